@@ -489,9 +489,6 @@ structure O8 where
   a : List A8 := []
   /-- slot declared offline by the last `dp.tx` (live → not live): its Offline event is due -/
   due : Option Nat := none
-  /-- how often the known finding was reported in this run (it is reported 20 times at most, so that
-  it cannot crowd other failures out of the report) -/
-  kSeen : Nat := 0
   deriving Inhabited
 
 def a8Of (o : O8) (slot : Nat) : A8 := o.a.getD slot {}
@@ -538,21 +535,15 @@ def oracle8 (b b' : Base) (seen : Seen) (views : List PView) (o : O8) : O8 × Ve
         if f = .inactive then fail o2 s!"fcb_never_inactive: acknowledged request to #{r.da} without frame count bit" else
         if !liveOf b.prev slot ∧ r.kind ≠ .diag then fail o2 s!"retry_bound: #{r.da} is offline and must only be probed with diagnostics requests" else
         if x.expectFirst then
-          if f ≠ .first then fail o2 s!"first_is_first: first request to #{r.da} after start-up / Offline carries FCV={b01 f.fcv} FCB={b01 f.fcb}" else (o2, none)
+          if f ≠ .first then fail o2 s!"first_is_first: first request to #{r.da} after start-up / Offline carries FCV={dpB01 f.fcv} FCB={dpB01 f.fcb}" else (o2, none)
         else
           match x.last with
           | none => (o2, none)
           | some (k0, f0) =>
             if x.accepted then
               if f.fcv ∧ f.fcb ≠ f0.fcb then (o2, none)
-              else fail o2 s!"toggle_after_accept: request to #{r.da} after an accepted reply carries FCV={b01 f.fcv} FCB={b01 f.fcb}, previous FCB={b01 f0.fcb}"
+              else fail o2 s!"toggle_after_accept: request to #{r.da} after an accepted reply carries FCV={dpB01 f.fcv} FCB={dpB01 f.fcb}, previous FCB={dpB01 f0.fcb}"
             else if f = f0 ∧ k0 ≠ r.kind then
-              -- known finding: `request_diagnostics()` between an unanswered Data_Exchange request and
-              -- its retransmission turns the retransmission into a diagnostics request with the same bit
-              if k0 = .dx ∧ r.kind = .diag ∧ x.diagReq ∧ !x.anyReply then
-                if o2.kSeen ≥ 20 then (o2, none) else
-                ({ o2 with kSeen := o2.kSeen + 1 }, some ("K_C08_diagreq_retry", s!"request_diagnostics() while the Data_Exchange request to #{r.da} is unanswered: the retransmission slot is used for a diagnostics request with the same frame count bit"))
-              else
               fail o2 s!"same_fcb_only_retransmit: request to #{r.da} repeats the frame count bit of an unanswered request of another service"
             else (o2, none)
     | _, _ => (o1, none)
@@ -579,7 +570,7 @@ def oracle8 (b b' : Base) (seen : Seen) (views : List PView) (o : O8) : O8 × Ve
   | .diagreq slot => (setA8 o slot { a8Of o slot with diagReq := true }, none)
   | _ => (o, none)
 
-def oracleC08 := withBase oracle8 (fun old => ({ kSeen := old.kSeen } : O8))
+def oracleC08 := withBase oracle8 (fun _ => ({} : O8))
 
 /-! ### C14 — cycles and events -/
 
@@ -687,7 +678,7 @@ def oracle14 (b b' : Base) (seen : Seen) (views : List PView) (o : O14) : O14 ×
     match views.find? (fun v => (lcOf o1 v.slot == 0) == v.live || (v.running && lcOf o1 v.slot != 2)) with
     | some v =>
       fail (setLc o1 v.slot (if v.live then (if v.running then 2 else 1) else 0))
-        s!"lifecycle / events_exact: slot {v.slot} is_live={b01 v.live} is_running={b01 v.running} but its events say state {lcOf o1 v.slot} (an event was lost or duplicated)"
+        s!"lifecycle / events_exact: slot {v.slot} is_live={dpB01 v.live} is_running={dpB01 v.running} but its events say state {lcOf o1 v.slot} (an event was lost or duplicated)"
     | none =>
     if cc then
       let idle' := (List.range c.ps.length).map fun i => if o1.visited.contains i then 0 else o1.idle.getD i 0 + 1
